@@ -1,6 +1,6 @@
 import DroopModel.Values
 /-!
-# `__str__` of Fixed, Guarded, Rational (as in the unchanged code, including its treatment of negatives)
+# `__str__` of Fixed, Guarded, Rational (negative values: sign, then the magnitude — repo commit "fix: values: str() of negative values")
 -/
 namespace Droop
 
@@ -13,29 +13,33 @@ def zpad (width : Nat) (n : Nat) : String :=
 def fmt2 (width : Nat) (a : Int) (b : Int) : String :=
   toString a ++ "." ++ zpad width b.toNat
 
+/-- sign prefix and magnitude of a scaled display value -/
+def signStr (v : Int) : String := if v < 0 then "-" else ""
+
 /-- Fixed.__str__ ; `display` already clamped to `0 ≤ display ≤ precision` by initialize -/
 def strFixed (p display : Nat) (v : Int) : String :=
   if p == 0 then toString v
   else
     let v1 := if display < p then pdiv (v + pow10 (p - display) / 2) (pow10 (p - display)) else v
-    fmt2 display (pdiv v1 (pow10 display)) (pmod v1 (pow10 display))
+    signStr v1 ++ fmt2 display (pdiv v1.natAbs (pow10 display)) (pmod v1.natAbs (pow10 display))
 
 /-- Guarded.__str__ ; `display` already clamped to `≤ p + g` -/
 def strGuarded (p g display : Nat) (v : Int) : String :=
   let dd := pow10 (g + p - display)
-  let gv := pdiv (v + dd / 2) dd
+  let gv0 := pdiv (v + dd / 2) dd
+  let gv : Int := gv0.natAbs
   let sc := pow10 display
-  if display ≤ p then fmt2 display (pdiv gv sc) (pmod gv sc)
+  if display ≤ p then signStr gv0 ++ fmt2 display (pdiv gv sc) (pmod gv sc)
   else
     let gvp := pmod gv sc
     let sg := pow10 (display - p)
-    toString (pdiv gv sc) ++ "." ++ zpad p (pdiv gvp sg).toNat ++ "_" ++ zpad (display - p) (pmod gvp sg).toNat
+    signStr gv0 ++ toString (pdiv gv sc) ++ "." ++ zpad p (pdiv gvp sg).toNat ++ "_" ++ zpad (display - p) (pmod gvp sg).toNat
 
 /-- Rational.__str__ -/
 def strRational (dp : Nat) (q : Rat) : String :=
   let dps := pow10 dp
   let v : Int := if q.num == 0 || q.den == 1 then q.num * dps
                  else ((q + (1 : Rat) / ((dps * 2 : Int) : Rat)) * (dps : Rat)).floor
-  fmt2 dp (pdiv v dps) (pmod v dps)
+  signStr v ++ fmt2 dp (pdiv v.natAbs dps) (pmod v.natAbs dps)
 
 end Droop
